@@ -78,16 +78,18 @@ def encode(node: ast.AST, env: Dict[str, z3.ArithRef], side: List) -> z3.ExprRef
             return l - r * floordiv(l, r)
         raise Unsupported("binop %s" % type(node.op).__name__)
     if isinstance(node, ast.Compare):
-        if len(node.ops) != 1:
-            raise Unsupported("chained comparison")
-        l = _to_int(encode(node.left, env, side))
-        r = _to_int(encode(node.comparators[0], env, side))
-        op = node.ops[0]
-        table = {ast.Lt: lambda: l < r, ast.LtE: lambda: l <= r, ast.Gt: lambda: l > r, ast.GtE: lambda: l >= r, ast.Eq: lambda: l == r, ast.NotEq: lambda: l != r}
-        for k, f in table.items():
-            if isinstance(op, k):
-                return f()
-        raise Unsupported("cmp %s" % type(op).__name__)
+        # a op1 b op2 c  ==  (a op1 b) and (b op2 c); operands are pure integer terms, so evaluating b once or twice is the same
+        operands = [_to_int(encode(x, env, side)) for x in [node.left] + list(node.comparators)]
+        conj = []
+        for (l, r), op in zip(zip(operands, operands[1:]), node.ops):
+            table = {ast.Lt: l < r, ast.LtE: l <= r, ast.Gt: l > r, ast.GtE: l >= r, ast.Eq: l == r, ast.NotEq: l != r}
+            for k, f in table.items():
+                if isinstance(op, k):
+                    conj.append(f)
+                    break
+            else:
+                raise Unsupported("cmp %s" % type(op).__name__)
+        return conj[0] if len(conj) == 1 else z3.And(*conj)
     if isinstance(node, ast.IfExp):
         c = _to_bool(encode(node.test, env, side))
         a = encode(node.body, env, side)
